@@ -194,6 +194,33 @@ pub fn run(ctx: &mut Ctx) {
     }
     ctx.run_prop(&SUB_RENUM, || (prop_oneof![random_symbol(2, 8..=40), random_symbol(3, 6..=40)], sw()).prop_map(|(ds, swaps)| Renum { ds, swaps }), n / 4);
     ctx.run_prop(&SUB_RENUM, || (prop_oneof![random_symbol(2, 100..=300), random_symbol(3, 100..=300)], sw()).prop_map(|(ds, swaps)| Renum { ds, swaps }), n / 100);
+    // branching numbers beyond 32 bits (legal usize values; congruent ones modulo 2^32 must still be told apart)
+    {
+        const BIG: [usize; 9] = [1, 2, 3, 1 << 31, 1 << 32, (1 << 32) + 1, (1 << 32) + 2, (1 << 33) + 1, (1 << 40) + 3];
+        let huge = |x: &DS, picks: &[u32]| -> DS {
+            let reps = orbit_reps(x);
+            let vs: Vec<usize> = (0..reps.len()).map(|k| BIG[picks[k % picks.len()] as usize % BIG.len()]).collect();
+            assign(&x.dset(), &reps, &vs)
+        };
+        let pool_a = pool.clone();
+        ctx.run_prop(&SUB_RENUM, move || (pooled_symbol(pool_a.clone()), prop::collection::vec(any::<u32>(), 6), sw()).prop_map(move |(x, picks, swaps)| Renum { ds: huge(&x, &picks), swaps }), n / 4);
+        let pool_b = pool.clone();
+        ctx.run_prop(
+            &SUB_PAIR,
+            move || {
+                (pooled_symbol(pool_b.clone()), prop::collection::vec(any::<u32>(), 6), any::<u32>(), any::<u32>(), sw()).prop_map(move |(x, picks, k, v, swaps)| {
+                    let a = huge(&x, &picks);
+                    let reps = orbit_reps(&a);
+                    let (i, d) = reps[pick_index(k, reps.len())];
+                    let mut b = a.clone();
+                    b.set_v(i, d, BIG[v as usize % BIG.len()]);
+                    let b = b.renumbered(&perm_from_swaps(b.size, &swaps));
+                    Pair(a, b)
+                })
+            },
+            n / 4,
+        );
+    }
     // space-group quotients of the cubic / prism tilings: highly symmetric symbols with up to thousands of chambers
     let max_n = t.pick(3usize, 4usize);
     ctx.run_prop(&SUB_RENUM, move || (crate::props::c17::cubic_strategy(max_n), sw()).prop_map(|(c, swaps)| Renum { ds: c.ds, swaps }), t.pick(1_500, 20_000));
